@@ -12,10 +12,26 @@ CLAIMED = {
    text="TLC explores the complete (stored, memo) state space of the TypeContext model (all histories of any length over the closed key family) and checks that the write-back implementation refines the write-once reference lookup; every transition of the full-family model is executed on the real class and random real operation sequences are validated event by event against the reference by TLC.",
    ref="DESIGN.md section 4 C16",
    note="Trusted: TLC, CommunityModules Json; the Python projection of dict keys/values to [b,f] records; bounded to the closed key family (3 bases x 10 forms in traces, complete state space for 1 base x 10 forms and 2-3 bases x 6 forms)."),
+ "C08": dict(
+   engine="Union",
+   technique="TLA+ spec Union.tla (reference relation UnionRef + try/suppress loop), exhaustive TLC over member tuples/outcomes; real union routines vs independently built member routines, validated by TLC trace spec Union_Trace.tla",
+   level="model_checking",
+   text="TLC checks that the implementation-shaped try/suppress loop refines UnionRef for every member tuple of length 2-4, every None placement and every assignment of member outcomes (and finds the counterexamples for the pre-fix rotation/suppress rules). Real union routines over ordered tuples of a 12-type pool are then run on an input pool in two orders and every call, with the outcomes of independently built member routines, is validated against UnionRef by TLC.",
+   ref="DESIGN.md section 4 C08",
+   note="Trusted: TLC; member outcomes taken from member routines built in the same process; caches cleared per union annotation (cross-annotation cache effects belong to C12). Quick samples 3/4-tuples; thorough runs all 3-tuples."),
+ "C18": dict(
+   engine="Iter",
+   technique="TLA+ spec Iter.tla (ItemsRef/ValuesRef vs peek/strategy implementation layer), exhaustive TLC over [kind, element shapes]; every TLC-emitted input materialised and run on serdes.iteritems/itervalues, validated by TLC trace spec Iter_Trace.tla",
+   level="model_checking",
+   text="TLC enumerates every input description (20 class kinds x element-shape sequences up to the bound), checks the implementation-shaped model against the reference outside the one listed deviation, and emits each case; the harness materialises each one as a real object, runs the real functions twice (strategy memo cold and warm, both class orders) and TLC validates every observation against ItemsRef/ValuesRef.",
+   ref="DESIGN.md section 4 C18",
+   note="Trusted: TLC; the tagging projection of yielded items; bounded to length 3 (quick) / 4 (thorough); 2-character-string elements unasserted."),
 }
 NOT_BUILT = "check not built yet (build in progress; see DESIGN.md section 7 build order)"
 
 ENGINES = {
+ "Union": dict(path="spec/Union.tla", kind="TLA+ spec + TLC (exhaustive, trace validation) + harness/drivers/c08.py"),
+ "Iter": dict(path="spec/Iter.tla", kind="TLA+ spec + TLC (exhaustive, case emission, trace validation) + harness/drivers/c18.py"),
  "Context": dict(path="spec/Context.tla", kind="TLA+ spec + TLC (exhaustive, emit, trace validation) + Python replay harness harness/drivers/c16.py"),
 }
 
